@@ -14,6 +14,6 @@ for d in sorted(os.listdir(os.path.join(V, "seeded"))):
 table = ("| seeded change (`seeded/<name>/`) | property | change | what it needs to manifest | caught by |\n|---|---|---|---|---|\n" + "\n".join(rows))
 p = os.path.join(V, "DESIGN.md")
 s = open(p).read()
-s = re.sub(r"<!-- SEEDTABLE -->.*?<!-- /SEEDTABLE -->", "<!-- SEEDTABLE -->\n" + table + "\n<!-- /SEEDTABLE -->", s, flags=re.S)
+s = re.sub(r"<!-- SEEDTABLE -->.*?<!-- /SEEDTABLE -->", lambda m: "<!-- SEEDTABLE -->\n" + table + "\n<!-- /SEEDTABLE -->", s, flags=re.S)
 open(p, "w").write(s)
 print(len(rows), "seeded changes in the table")
